@@ -13,6 +13,28 @@ def ground_unit(name, fn):
     return Unit("ground", name, fn=fn)
 
 
+# obligations of the SocketWrapper contracts that speak about progress / completeness, not about WHICH bytes are handed out
+SOCKET_LIVENESS = ("variant_", "short_only_after_failed_receive", "true_means_segment_appended", "no_complete_chunk_left_in_partial",
+                   "ends_at_first_LF_or_stopped_on_empty_read", "recv.pre.bufsize_positive")
+
+
+def socket_units(tier, safety_only=False):
+    """The stream a reader is given may be the library's own SocketWrapper (RTCMReader.__init__ wraps sockets itself): every property
+    stated over 'the underlying stream' therefore also rests on SocketWrapper (plain and chunked) honouring the stream contract the
+    reader is verified against.  These are the C11/C12 function units plus the refinement lemmas over their contracts.
+    safety_only: for properties that only need 'the bytes handed out are the peer's bytes, in order, nothing invented, lost in the
+    middle or repeated' (C01, C13) the progress obligations of those contracts are left to C02/C04/C11/C12."""
+    us = []
+    for q in ("_recv", "read", "readline", "__init__", "dechunk"):  # incl. chunked transfer encoding (C12): same stream contract
+        us += func_units(f"pyrtcm.socketwrapper.SocketWrapper.{q}", tier)
+    if safety_only:
+        for u in us:
+            u.skip_obligations = SOCKET_LIVENESS
+    from contracts import socketw
+    us.append(lemma_unit("socket.refines_stream_contract", socketw.refinement_lemmas))
+    return us
+
+
 def try_candidates(spec_name, candidates, key=None, limit=2000):
     """Run concrete candidates through the real code until one fails the contract."""
     import itertools
